@@ -111,9 +111,15 @@ func (l *Lexer) NextToken() *token.Token {
 		}
 		return token.ConstantTokenChar(ch)
 	case '"', '`':
+		start := l.pos - 1
 		str, ok := l.readString(ch)
 		if !ok {
-			return l.EOLEOF()
+			if l.lineMode {
+				return token.EOLT // continuation needed
+			}
+			// complete input: an unterminated string is an error token holding the rest of the input
+			l.pos = len(l.input)
+			return token.Intern(token.ILLEGAL, string(l.input[start:]))
 		}
 		return token.Intern(token.STRING, str)
 	case 0:
